@@ -49,5 +49,8 @@ meta = {
     'caught_by': {p: v['obligations'] for p, v in caught.items() if v['exit'] == 1},
     'files': {'patch.diff': 'git apply -able change to /repo', 'demo_test.go.txt': 'demonstration test (copy to the package directory as *_test.go to run)'},
 }
+ft = f'/tmp/mut/{id_}/first_try_{m}.txt'
+if os.path.exists(ft):
+    meta['first_try'] = open(ft).read().strip()
 json.dump(meta, open(f'{dst}/meta.json', 'w'), indent=1)
 print(seedname, meta['checks_run'], {p: v[:2] for p, v in meta['caught_by'].items()})
